@@ -62,6 +62,9 @@ def cases(tier, seed):
     yield {"config": MIXED_CASE_NAME, "template": "function-json", "fc": 1, "events": [], "kinds": {}, "family": "mixed-case-name"}
     for t in TEMPLATES:
         yield {"config": LEGACY_KEYS, "template": t, "fc": 1, "events": [], "kinds": {}, "family": "legacy-keys"}
+    for t in TEMPLATES:
+        # regression input of a fixed defect (known_findings.json "fixed": C17): logic named only in a state's own onDone
+        yield {"config": ONDONE_ONLY_LOGIC, "template": t, "fc": 2, "events": ["FIN"], "kinds": {}, "family": "ondone-only-logic"}
     for c in M.gen_cases(seed * 1299709 + 1, n, max_nodes=6, features={"after": 0.3, "history": 0.3, "parallel": 0.3}):
         cfg = _identifiers(c["config"])
         fam = "plain"
@@ -82,6 +85,10 @@ def cases(tier, seed):
             yield {"config": cfg, "template": rng.choice(TEMPLATES[:3]), "fc": 2, "events": [], "kinds": {}, "family": "stately:" + f}
 
 
+ONDONE_ONLY_LOGIC = {"id": "m", "initial": "job", "context": {"n": 0}, "states": {
+    "job": {"initial": "work", "states": {"work": {"on": {"FIN": "fin"}}, "fin": {"type": "final"}},
+            "onDone": {"target": "after", "actions": ["only_in_done"], "guard": "g_done"}},
+    "after": {}}}
 LEGACY_KEYS = {"id": "m", "initial": "a", "context": {}, "states": {
     "a": {"onEntry": ["hello"], "onExit": "bye", "on": {"GO": "b"}}, "b": {"onEntry": "hello"}}}
 MIXED_CASE_NAME = {"id": "m", "initial": "a", "context": {}, "states": {
